@@ -93,6 +93,22 @@ class LoopSpec:
         self.on_iteration_start = on_iteration_start
 
 
+class MappedSeq:
+    """value of a generator expression / list comprehension over a symbolic sequence"""
+
+    def __init__(self, length, item):
+        self.length, self.item = length, item
+
+    def pyvc_iter(self):
+        return self.length, self.item
+
+    def pyvc_len(self):
+        return S.SymReal(self.length)
+
+    def pyvc_copy(self):
+        return self
+
+
 class Obl:
     __slots__ = ("name", "hyps", "goal", "meta")
 
@@ -177,6 +193,31 @@ def assigned_names(stmts) -> List[str]:
     return out
 
 
+def mutated_roots(stmts) -> List[str]:
+    """root names of in-place mutations through attribute / subscript chains:  self[k].append(x), self._lines.append(x), a.b[c] = v"""
+    out = []
+
+    def root(n):
+        while isinstance(n, (ast.Attribute, ast.Subscript)):
+            n = n.value
+        return n.id if isinstance(n, ast.Name) else None
+
+    for s in stmts:
+        for n in ast.walk(s):
+            r = None
+            if isinstance(n, ast.Call) and isinstance(n.func, ast.Attribute) and n.func.attr in _MUTATORS and not isinstance(n.func.value, ast.Name):
+                r = root(n.func.value)
+            elif isinstance(n, (ast.Assign, ast.AugAssign, ast.AnnAssign)):
+                for t in (n.targets if isinstance(n, ast.Assign) else [n.target]):
+                    if isinstance(t, (ast.Attribute, ast.Subscript)):
+                        r2 = root(t)
+                        if r2 and r2 not in out:
+                            out.append(r2)
+            if r and r not in out:
+                out.append(r)
+    return out
+
+
 _MUTATORS = {"append", "extend", "add", "update", "remove", "pop", "insert", "clear", "sort", "reverse", "setdefault"}
 
 _BIN = {ast.Add: operator.add, ast.Sub: operator.sub, ast.Mult: operator.mul, ast.Div: operator.truediv,
@@ -209,6 +250,7 @@ class Interp:
         self.feas_timeout_ms = feas_timeout_ms
         self.paths_pruned = 0
         self._raise_frames: List[List[St]] = [[]]
+        self.str_hook: Optional[Callable] = None      # (receiver str, method name, args, kwargs) -> token; default: "<str>"
         self.builtins = {"print": Noop(), "len": sym_len, "abs": abs, "min": min, "max": max, "range": range,
                          "isinstance": isinstance, "tuple": tuple, "list": list, "int": int, "float": float,
                          "True": True, "False": False, "None": None, "set": set, "dict": dict, "sum": sum,
@@ -398,6 +440,8 @@ class Interp:
         if isinstance(f, Noop):
             return None
         if isinstance(getattr(f, "__self__", None), str):
+            if self.str_hook is not None:
+                return self.str_hook(f.__self__, f.__name__, args, kw)
             return "<str>"                 # text formatting (error messages): value irrelevant
         if f in _SAFE_CALLABLES or getattr(f, "pyvc_pure", False):
             with self._ctx(st):
@@ -411,6 +455,26 @@ class Interp:
             raise PyvcUnsupported("yield: the sidecar declares no '__yielded__' list")
         y.append(self.ev(e.value, st) if e.value is not None else None)
         return None
+
+    def ev_GeneratorExp(self, e, st):
+        """(elt for x in <symbolic sequence>) with one generator and no condition: the mapped sequence (elt evaluated lazily per index,
+        on a fork of the state at creation: the element expression must be pure)"""
+        if len(e.generators) != 1 or e.generators[0].ifs or e.generators[0].is_async:
+            raise PyvcUnsupported("comprehension with conditions / several generators")
+        g = e.generators[0]
+        it = self.ev(g.iter, st)
+        if not hasattr(it, "pyvc_iter"):
+            raise PyvcUnsupported("comprehension over a concrete iterable")
+        length, item = it.pyvc_iter()
+        snap = st.fork()
+
+        def mapped(k):
+            s2 = snap.fork()
+            self.bind(g.target, item(k), s2)
+            return self.ev(e.elt, s2)
+        return MappedSeq(length, mapped)
+
+    ev_ListComp = ev_GeneratorExp
 
     def ev_Lambda(self, e, st):
         raise PyvcUnsupported("lambda")
@@ -739,6 +803,7 @@ class Interp:
         lname = spec.name or f"loop{k}"
         self.oblige(st, f"{lname}/invariant.on-entry", spec.invariant(st), {"line": s.lineno})
         names = assigned_names(s.body)
+        names = names + [r for r in mutated_roots(s.body) if r in st.env and r not in names and hasattr(st.env[r], "pyvc_fresh_like")]
         h = st.fork()
         self._havoc(h, names, spec)
         h.assume(spec.invariant(h))
@@ -809,7 +874,8 @@ class Interp:
         for n in assigned_names(s.body):
             if n not in h.env:
                 h.env[n] = UNBOUND
-        self._havoc(h, [n for n in assigned_names(s.body)], spec)
+        self._havoc(h, [n for n in assigned_names(s.body)] + [r for r in mutated_roots(s.body) if r in h.env and r not in assigned_names(s.body)
+                                                              and hasattr(h.env[r], "pyvc_fresh_like")], spec)
         h.assume(spec.invariant(h, k))
         h.log = []
         out = []
